@@ -21,6 +21,8 @@ from ..expr import show, strip_old, walk
 from ..pathcond import PathA, calls_to, field_stores
 from . import C07, C08, C15
 
+from ..roles import upvar_index  # noqa: E402
+
 LEVEL = "other"
 RT = "srtla_core::connection::rtt::RttTracker"
 KF = "srtla_core::kalman::KalmanFilter"
@@ -270,7 +272,7 @@ def d5_cadence(ctx):
         return
     fa = ctx.fa(hk)
     cfg = ctx.cfg(hk)
-    up = [i for i, nm in hk.upvar_names.items() if nm == "connections"]
+    up = [i for i in [upvar_index(hk, "connections")] if i is not None]
     CONNS = ("upvar", up[0]) if up else None
     tests = calls_to(hk, stable=CONN + "::needs_keepalive")
     if len(tests) != 1 or CONNS is None:
